@@ -250,6 +250,57 @@ func RandomCase(r *gen.RNG, maxLen int) *Case {
 	return c
 }
 
+// LargeCase draws a long paragraph cut into many runs (more than the wrapper's
+// internal 100-entry line buffer), so that lines hold several runs each.
+func LargeCase(r *gen.RNG) *Case {
+	n := 120 + r.Intn(280)
+	c := &Case{Origin: "synthetic-large"}
+	for i := 0; i < n; i++ {
+		switch r.Intn(7) {
+		case 0, 1:
+			c.Text = append(c.Text, ' ')
+		case 2:
+			c.Text = append(c.Text, gen.Pick(r, alphabet))
+		default:
+			c.Text = append(c.Text, 'a')
+		}
+	}
+	c.ParaRTL = r.Chance(1, 4)
+	st := structure{clusterCut: make([]bool, n), runCut: make([]bool, n)}
+	base := 0
+	if c.ParaRTL {
+		base = 1
+	}
+	nruns := 1
+	for i := 0; i < n-1; i++ {
+		st.clusterCut[i] = !r.Chance(1, 8)
+		if st.clusterCut[i] && r.Chance(1, 2) {
+			st.runCut[i] = true
+			nruns++
+		}
+	}
+	mixed := r.Chance(1, 3)
+	for i := 0; i < nruns; i++ {
+		if mixed {
+			st.levels = append(st.levels, base+r.Intn(2))
+		} else {
+			st.levels = append(st.levels, base)
+		}
+	}
+	for i := 0; i < n; i++ {
+		st.twoGlyphs = append(st.twoGlyphs, r.Chance(1, 10))
+	}
+	c.Runs = build(c.Text, st)
+	total := totalPx(c.Runs)
+	randomConfig(r, c, total)
+	// widths giving 5..40 lines
+	c.Widths = []int{total/(5+r.Intn(36)) + 1}
+	if r.Chance(3, 4) {
+		c.TruncateAfter = 0
+	}
+	return c
+}
+
 // EnumSmall enumerates the exhaustive small scope for one text: every cluster
 // partition, every run split on cluster boundaries, direction patterns, every
 // width 0..total+1, the three policies and truncation settings. emit is called
